@@ -82,6 +82,9 @@ func quietLeave(t *Task) {
 //go:norace
 func isQuiet() bool { return S == nil || S.cur == nil || S.cur.quiet > 0 || S.aborting }
 
+// SchedLast is the schedule entry "switch to the highest-numbered runnable task".
+const SchedLast = ^uint32(0)
+
 // Config is the schedule / fault part of a plan.
 type Config struct {
 	Sched     []uint32
@@ -389,6 +392,8 @@ func (s *Sim) pickNext(cur *Task) *Task {
 		} else {
 			n = run[0]
 		}
+	case c == SchedLast:
+		n = run[len(run)-1] // the highest-numbered runnable task (the "stall" victim)
 	case curOK && c == 0:
 		n = cur
 	case curOK:
